@@ -112,6 +112,11 @@ def process_cases(sd, pcs):
                 time.sleep(0.5)
             t0 = time.time()
             proc.send_signal(signal.SIGTERM if c["sig"] == "TERM" else signal.SIGINT)
+            if c.get("repeat", "none") != "none":
+                # "repeated ... shutdown calls are harmless": a second stop signal while the request is draining
+                time.sleep(0.3)
+                if proc.poll() is None:
+                    proc.send_signal(signal.SIGTERM if c["repeat"] == "TERM" else signal.SIGINT)
             try:
                 rc = proc.wait(timeout=7)
             except subprocess.TimeoutExpired:
